@@ -50,6 +50,25 @@ void skinMesh(NifFile& nif, NiShape* shape, int nbones, uint64_t seed, int maxIn
 	}
 	for (int b = 0; b < nbones; ++b)
 		nif.SetShapeBoneWeights(shape->name.get(), static_cast<uint32_t>(b), w[static_cast<size_t>(b)]);
+	// BSTriShape keeps the weights per vertex in the shape itself (at most 4 influences)
+	if (dynamic_cast<BSTriShape*>(shape)) {
+		for (uint16_t v = 0; v < nv; ++v) {
+			std::vector<std::pair<float, uint8_t>> inf;
+			for (int b = 0; b < nbones && b < 256; ++b) {
+				auto it = w[static_cast<size_t>(b)].find(v);
+				if (it != w[static_cast<size_t>(b)].end() && it->second > 0.0f)
+					inf.emplace_back(it->second, static_cast<uint8_t>(b));
+			}
+			std::sort(inf.begin(), inf.end(), [](auto& x, auto& y) { return x.first > y.first; });
+			std::vector<uint8_t> ids;
+			std::vector<float> ws;
+			for (size_t k = 0; k < inf.size() && k < 4; ++k) {
+				ids.push_back(inf[k].second);
+				ws.push_back(inf[k].first);
+			}
+			nif.SetShapeVertWeights(shape->name.get(), v, ids, ws);
+		}
+	}
 }
 } // namespace vh
 
